@@ -83,17 +83,20 @@ PARSE_NOTE = NOTE + (" The table-driven parser model (lexer, LR driver with erro
                      "regenerated/transcribed from the lalrpop output of the build under test and must equal add_content exactly "
                      "(tree, all ranges, all diagnostics with messages) on every input of the run.")
 CLAIMS.update({
-    "C01": ("proof", "PARTIAL proof. Coq theorems: the table-driven parser never panics on any text, for the regenerated lexer, LR and action "
-            "tables (C01_parse_partial: add_content stores a result or runs out of fuel; C01_reductions_typed: every action is applied to "
-            "values of the types it expects and returns the type of its nonterminal -- a typed-stack invariant whose table-specific "
-            "parts are finite checks computed by Coq over all 256 states and 210 productions); validation of grammar-shaped trees cannot "
-            "panic (C01_validation_total) and every tree the parser stores is grammar-shaped, so validating a stored tree cannot panic "
-            "(C01_parsed_tree_is_grammar_shaped, C01_parsed_tree_validates); one result per held file tagged with its id (C01_ids); one slot per id after any history "
-            "(C01_slots); every position is a character boundary inside the text (C01_positions_partial). NOT proved: that the loops' fuel "
-            "suffices (termination of the LR automaton); a run out of fuel is a correspondence failure. Also decided by running: exact "
-            "parser model vs implementation on soups, mutated documents, Unicode injection, multi-file sets, histories, deep nesting and "
-            "large inputs under catch_unwind and a timeout.",
-            "Coq proof (typed-stack safety invariant over the regenerated tables, validation totality, bookkeeping, position soundness) + exact differential correspondence + crash/timeout harness",
+    "C01": ("proof", "Coq theorems, for every source text and the regenerated lexer, LR and action tables: add_content always stores a "
+            "result (C01_parse_total) -- the parser never panics (C01_parse_partial, C01_reductions_typed: a typed-stack invariant whose "
+            "table-specific parts are finite checks computed by Coq over all 256 states and 210 productions) and its loops never exhaust "
+            "their fuel (C01_loops_terminate: no run of reductions exceeds a bound computed from the tables, recovery's accepts simulation "
+            "keeps its promise, every dropped token shortens the text; C01_inner_loops_fuel_immaterial); validation of grammar-shaped trees "
+            "cannot panic (C01_validation_total) and every tree the parser stores is grammar-shaped (C01_parsed_tree_is_grammar_shaped, "
+            "C01_parsed_tree_validates), so validate over any set of held files returns one result per file tagged with its id (C01_total, "
+            "C01_ids); one slot per id after any history (C01_slots); every position is a character boundary inside the text "
+            "(C01_positions_partial). The theorems are about the Gallina model: the regenerated tables plus the hand-written transcription of "
+            "lalrpop-util's lexer and driver, the user actions and validation, tied to the code by the exact correspondence of every run; the "
+            "regex engine and line-col are modelled; native stack depth and running time are observed, not proved. Also decided by running: "
+            "exact parser model vs implementation on soups, mutated documents, Unicode injection, multi-file sets, histories, deep nesting "
+            "and large inputs under catch_unwind and a timeout.",
+            "Coq proof (typed-stack safety invariant and termination of the table-driven parser over the regenerated tables, validation totality, bookkeeping, position soundness) + exact differential correspondence + crash/timeout harness",
             PARSE_NOTE),
     "C02": ("proof", "PARTIAL proof. Coq theorem C02_tree_is_a_function_of_the_tokens: two texts that the regenerated lexer cuts into the same tokens "
             "(same table entry and text; offsets, whitespace, line endings, comments free) give trees that are equal once ranges and "
